@@ -66,7 +66,10 @@ def rtree(draw, rleaves, tleaves, depth):
             draw(rtree(rleaves, tleaves, depth - 1))]
 
 
-EC_CHOICES = ["none", "none", "right", "right", "right", "wrong", "len"]
+# expected_count placeholder kinds; a default entry with an int count is only right if every Einsum agrees, so the
+# default table leans on len(Set)+k expressions and on no count at all
+EC_CHOICES = ["none"] * 3 + ["right"] * 3 + ["len", "wrong"]
+EC_DEFAULT = ["none"] * 5 + ["right"] * 2 + ["len"] * 2 + ["wrong"]
 
 
 @st.composite
@@ -76,9 +79,9 @@ def cases(draw):
     dform = draw(st.sampled_from(["dict", "list", "list"]))
     dt, dr = [], []
     for nm in draw(st.lists(st.sampled_from(TN), max_size=3, unique=True)):
-        dt.append([nm, draw(ttree(TBASE + [x[0] for x in dt], draw(st.integers(0, 3)))), draw(st.sampled_from(EC_CHOICES))])
+        dt.append([nm, draw(ttree(TBASE + [x[0] for x in dt], draw(st.integers(0, 3)))), draw(st.sampled_from(EC_DEFAULT))])
     for nm in draw(st.lists(st.sampled_from(RN), max_size=2, unique=True)):
-        dr.append([nm, draw(rtree(["m"] + [x[0] for x in dr], TBASE + [x[0] for x in dt], 2)), draw(st.sampled_from(EC_CHOICES))])
+        dr.append([nm, draw(rtree(["m"] + [x[0] for x in dr], TBASE + [x[0] for x in dt], 2)), draw(st.sampled_from(EC_DEFAULT))])
     default = {"form": dform, "tensor": dt, "rank": dr}
 
     def table(e, split):
